@@ -7,8 +7,8 @@ from vlib.core import Case
 PROP = "C12"
 SPEC_MODE = "oracle"
 KEEP_PREFIX = 1
-SIZES = {"quick": 9000, "thorough": 160000}
-BATCH = 3000
+SIZES = {"quick": 20000, "thorough": 200000}
+BATCH = 5000
 SEARCH_TRIES = 60
 EXTRA_MODULES = ("Sentinel.Lemmas.BreakerRace",)
 RULE = ("cases = one real breaker (error count / error ratio / slow ratio; timeout, minRequestAmount, threshold, probeNum varied) + a sequential "
